@@ -35,11 +35,13 @@ PROPS = {
     ),
     "C09": dict(
         level="exploration",
-        modules=["specs.rbcommon", "specs.formatter"],
+        modules=["specs.rbcommon", "specs.formatter", "specs.deployrule"],
         bounded=[("bounded.c09", "run")],
         assumes=["A1", "A6", "A8", "A9", "A13"],
         trusted=["CommonFormatter.patch (the text shown), cmd_paths (what is sent), _blocks, _indent_blocks and _filtered_block_marks are "
-                 "proved relative to the assumed contract of blocks_and_context (a well-bracketed token stream); blocks_and_context itself, block_exit strings and apply_deploy_rulebook: bounded only",
+                 "proved relative to the assumed contract of blocks_and_context (a well-bracketed token stream); match_deploy_rule (which rule "
+                 "gives a command its timeout and dialogs: the walk of its block path through the rule tree) is proved relative to "
+                 "re.match / match_context; blocks_and_context itself, block_exit strings and apply_deploy_rulebook: bounded only",
                  "hardware flags are booleans with the hierarchy axiom as precondition of common.apply"],
     ),
     "C14": dict(
